@@ -265,6 +265,17 @@ StepRules(st, self, types, cache) ==
              /\ RespPausedView(pre) /\ ~stayAfter)
            => (Has(TrOf(st.tr, "resume"), LAMBDA t : ~t.msg.paused /\ t.msg.accepted) /\ post.ip = pre.ip)
         THEN {} ELSE {"C11.validationResume"})
+  (* ---------------- C07 (manager level): every block report reaches the channel - the index follows the highest position, unique or not ---------------- *)
+  \cup (IF (k \in {"OnDataQueued","OnDataSent","OnDataReceived"} /\ has /\ ~term /\ st.panic = "")
+           => LET ev == CASE k = "OnDataQueued" -> "DataQueued" [] k = "OnDataSent" -> "DataSent" [] OTHER -> "DataReceived"
+                  pi == CASE k = "OnDataQueued" -> pre.qIdx [] k = "OnDataSent" -> pre.sIdx [] OTHER -> pre.rIdx
+                  qi == CASE k = "OnDataQueued" -> post.qIdx [] k = "OnDataSent" -> post.sIdx [] OTHER -> post.rIdx
+                  pt == CASE k = "OnDataQueued" -> pre.queued [] k = "OnDataSent" -> pre.sent [] OTHER -> pre.received
+                  qt == CASE k = "OnDataQueued" -> post.queued [] k = "OnDataSent" -> post.sent [] OTHER -> post.received
+              IN /\ (Dest(ev, pre.status) # "INV" => qi = (IF s.args.index > pi THEN s.args.index ELSE pi))
+                 /\ (~s.args.unique => qt = pt)
+                 /\ qt >= pt
+        THEN {} ELSE {"C07.reportReachesChannel"})
   (* ---------------- C19 (manager level record rules) ---------------- *)
   \cup (IF (k = "SendVoucher" /\ has /\ ~term /\ amInit)
            => (IF s.sendFail = << >> THEN post.vouchers = Append(pre.vouchers, m.v) ELSE post.vouchers = pre.vouchers) /\ post.results = pre.results
